@@ -3,6 +3,7 @@ import Driver.Util
 import RelicVerif.Spec.Sha256
 import RelicVerif.Model.Sha256
 import RelicVerif.Model.Drbg
+import RelicVerif.Model.RandInt
 
 namespace Driver.C15
 open Relic.Model Driver
@@ -102,28 +103,17 @@ def runToks {σ : Type} (f : σ → String → σ × String) (s : σ) (toks : Li
   | [] => []
   | t :: ts => let (s', o) := f s t; o :: runToks f s' ts
 
-/-- bn_rand: digits*(w/8) bytes from the stream fill the digit array in host (little-endian) order -/
-def bnRandModel (w cap : Nat) (x : Drbg.Ctx) (neg : Bool) (bits0 : Nat) : Option (Bn × Drbg.Ctx) :=
-  let digits := bits0 / w + (if bits0 % w > 0 then 1 else 0)
-  let bits := bits0 % w
-  if digits > cap then none else
-  match Drbg.randBytes mcfg x (digits * (w / 8)) with
-  | none => none
-  | some (bytes, x') =>
-    let dp := (List.range digits).map fun i =>
-      (List.range (w / 8)).foldl (fun acc j => acc + (bytes.getD (i * (w / 8) + j) 0).toNat * 256 ^ j) 0
-    let dp := if bits > 0 ∧ digits > 0 then dp.set (digits - 1) (dp.getD (digits - 1) 0 % 2 ^ bits) else dp
-    some (bnTrim { neg := neg, dp := dp }, x')
+/-- the DRBG model as byte source of Model/RandInt -/
+def drawBytes (x : Drbg.Ctx) (n : Nat) : Option (List Nat × Drbg.Ctx) :=
+  (Drbg.randBytes mcfg x n).map fun (b, x') => (b.map (·.toNat), x')
 
-/-- bn_rand_mod for a bound b ≥ 2: draw bits(b) + RAND_DIST (= 40) bits, reduce, draw again while the residue is zero -/
-def bnRandModModel (w cap : Nat) (b : Nat) : Nat → Drbg.Ctx → Option Nat
-  | 0, _ => none
-  | fuel + 1, x =>
-    match bnRandModel w cap x false (bitLen b + 40) with
-    | none => none
-    | some (a, x') =>
-      let r := Relic.Model.val (2 ^ w) a.dp % b
-      if r == 0 then bnRandModModel w cap b fuel x' else some r
+/-- bn_rand (Model/RandInt.bnRand over the DRBG model) -/
+def bnRandModel (w cap : Nat) (x : Drbg.Ctx) (neg : Bool) (bits0 : Nat) : Option (Bn × Drbg.Ctx) :=
+  (Relic.Model.RandInt.bnRand drawBytes w cap x bits0).map fun (dp, x') => (bnTrim { neg := neg, dp := dp }, x')
+
+/-- bn_rand_mod for a bound b ≥ 2 (Model/RandInt.bnRandMod; Props/C15.bn_rand_mod_range is about this function) -/
+def bnRandModModel (w cap : Nat) (b : Nat) (fuel : Nat) (x : Drbg.Ctx) : Option Nat :=
+  Relic.Model.RandInt.bnRandMod drawBytes w cap b fuel x
 
 def handle (w cap : Nat) (op : String) (args : List String) (got : String) : Option Verdict :=
   match op with
@@ -142,7 +132,7 @@ def handle (w cap : Nat) (op : String) (args : List String) (got : String) : Opt
         | [v, _] => match parseHexInt v with
           | some z => decide (1 ≤ z ∧ z < (b : Int)) && got == fmtIntNF w z
           | none => false
-        | _ => got == "err" && (bitLen b + 40 + w - 1) / w > cap
+        | _ => got == "err" && (bitLen b + 40 + w - 1) / w + 1 > cap
       some { model := m, spec := if okSpec then [got] else ["<an integer in [1, " ++ bs ++ ")>"],
              tags := ["rand_mod", if b < 2 ^ w then "rand_mod.small" else "rand_mod.multi"] }
     | _ => none
